@@ -204,6 +204,52 @@ def gen_history(rng, tier):
     return tm
 
 
+def make_rare(tm):
+    """give every non-interface variable a state 0 of probability 1e-5 in every column (both slices)"""
+    k = tm["k"]
+    iface = {u for u, _ in tm["inter"]}
+    for key in ("cpd0", "cpd1"):
+        for f in tm[key]:
+            v = f["scope"][0] % k
+            if v in iface:
+                continue
+            c = f["card"][0]
+            ncols = len(f["vals"]) // c
+            vals = [Fraction(x) for x in f["vals"]]
+            for j in range(ncols):
+                col = [vals[i * ncols + j] for i in range(c)]
+                rest = sum(col[1:])
+                eps = Fraction(1 + (7 * j + 3 * v) % 9, 100000)        # rare, but informative about the parents
+                new = [eps] + [x * (1 - eps) / rest for x in col[1:]]
+                for i in range(c):
+                    vals[i * ncols + j] = new[i]
+            f["vals"] = [rs(x) for x in vals]
+
+
+def gen_rare_history(rng, tier):
+    """smoothing under a sequence of very unlikely observations: the unnormalised interface potentials become tiny (1e-10 and
+    less) long before the last slice"""
+    for _ in range(60):
+        tm = gen_template(rng, good=True)
+        if tm["good"] and tm["k"] >= 2 and len({u for u, _ in tm["inter"]}) < tm["k"]:
+            break
+    else:
+        return None
+    k = tm["k"]
+    make_rare(tm)
+    iface = sorted({u for u, _ in tm["inter"]})
+    sensors = [v for v in range(k) if v not in iface]
+    T = 3 if math.prod(tm["card"]) ** 4 <= 7000 else 2
+    ev = [[v, t, 0] for t in range(1, T + 1) for v in sensors]
+    steps = []
+    for _ in range(rng.randint(1, 3)):
+        steps.append({"q": [[rng.choice(iface), rng.randrange(0, T)]], "ev": ev, "mode": "query"})
+    tm["T"] = T
+    tm["steps"] = steps
+    tm["rare"] = True
+    return tm
+
+
 def run_history(case, drv):
     from pgmpy.inference import DBNInference
     k, T = case["k"], case["T"]
@@ -297,5 +343,6 @@ def run_const(case, drv):
 STREAMS = [
     Stream("query", gen_query, run_query, quick=500, thorough=5000),
     Stream("history", gen_history, run_history, quick=250, thorough=2500),
+    Stream("rare_evidence", gen_rare_history, run_history, quick=150, thorough=1500),
     Stream("constant_bn", gen_const, run_const, quick=300, thorough=3000),
 ]
